@@ -7,6 +7,7 @@ WT=$1
 export GOFLAGS=-mod=mod GOPROXY=off GOSUMDB=off
 cd "$WT" || exit 2
 git checkout -q -- . || exit 2
+git clean -fdq -e demo -e MUTANT.diff -e META.txt
 git apply MUTANT.diff || { echo "MUTANT.diff does not apply"; exit 1; }
 RACE=""
 grep -q -- "-race" META.txt 2>/dev/null && RACE="-race"
@@ -16,6 +17,7 @@ if go test -vet=off -count=1 $PK >/tmp/confirm-suite.$$ 2>&1; then echo "suite: 
 rm -f /tmp/confirm-suite.$$
 if go test -vet=off -count=1 $RACE ./demo/... >/dev/null 2>&1; then echo "demo with change: PASSES (bad)"; exit 1; else echo "demo with change: fails (good)"; fi
 git apply -R MUTANT.diff || exit 2
+git clean -fdq -e demo -e MUTANT.diff -e META.txt
 if go test -vet=off -count=1 $RACE ./demo/... >/dev/null 2>&1; then echo "demo without change: passes (good)"; R=0; else echo "demo without change: FAILS (bad)"; R=1; fi
 git apply MUTANT.diff
 exit $R
